@@ -21,8 +21,13 @@ for d in sorted(glob.glob(f'{V}/seeded/C*')):
     rows.append((m['id'], 'yes' if conf.get('confirmed') else 'no', needs, status, checks))
 tab = ['| id | confirmed | needs to manifest (agent\'s words, truncated) | result | violating sub-checks |', '|---|---|---|---|---|']
 tab += ['| ' + ' | '.join(str(c).replace('|', '/') for c in r) + ' |' for r in rows]
+notes = json.load(open(f'{V}/seeded/NOTES.json'))
+n_inv = sum(1 for r in rows if notes.get(r[0], {}).get('status') == 'invalid')
+n_und = sum(1 for r in rows if notes.get(r[0], {}).get('status') == 'undecided')
 n_c = sum(1 for r in rows if r[3].startswith('caught'))
-head = (f'{len(rows)} seeded changes; {n_c} caught by the property\'s own check '
+head = (f'{len(rows)} seeded changes; {n_inv} no longer break the property on the current tree (a later fix: commit closed '
+        f'their route), {n_und} are not decidable from the property text; of the remaining {len(rows) - n_inv - n_und}, '
+        f'{n_c} are caught by the property\'s own check '
         f'({sum(1 for r in rows if r[3].startswith("caught (quick")) } already by the quick tier).\n\n')
 s = open(f'{V}/DESIGN.md').read()
 a, b = '<!-- SEEDED-MATRIX-BEGIN -->', '<!-- SEEDED-MATRIX-END -->'
